@@ -143,8 +143,8 @@ class Run:
               f"inconclusive={inc} known={cov['known_findings']} violations={len(new_viol)} "
               f"paths={self.states} queries={self.transitions} solver_s={round(self.solver_s, 1)} "
               f"wall_s={ev['wall_s']}", flush=True)
-        if self.internal_errors:
-            for e in self.internal_errors:
-                print("INTERNAL-ERROR", e, flush=True)
-            return 3
-        return 1 if new_viol else 0
+        for e in self.internal_errors:
+            print("INTERNAL-ERROR", e, flush=True)
+        if new_viol:
+            return 1
+        return 3 if self.internal_errors else 0
